@@ -22,6 +22,10 @@ Proof.
   - destruct (ip4_of_string s); eexists; reflexivity.
   - destruct (parse_ids ids); eexists; reflexivity.
   - destruct (write_extcoms l); eexists; reflexivity.
+  - destruct fam as [[afi safi]|]; [|eexists; reflexivity]. destruct (_ || _); [eexists; reflexivity|].
+    destruct (_ && _); [eexists; reflexivity|].
+    destruct nhs as [|nh r]; [eexists; reflexivity|].
+    destruct (ip4_of_string nh); [eexists; reflexivity|]. destruct (v6r nh); eexists; reflexivity.
 Qed.
 
 Theorem C17_from_api_total :
@@ -404,4 +408,140 @@ Example guarded_examples :
 Proof.
   cbn zeta. split; [|split; [reflexivity|split; vm_compute; reflexivity]].
   repeat split; cbn; try lia. repeat constructor; lia.
+Qed.
+
+(* ------------------------------------------------------------------ *)
+(* Flowspec, SR Policy, Route Target Constraint                          *)
+From RB Require Import Proofs.ApiX.
+
+Theorem C17_flowspec_roundtrip :
+  forall v6p v6r n, v6_contract v6p v6r -> wf_fs n ->
+    fs_from_api v6r (fs_family n) (fs_to_api v6p n) = Some n.
+Proof. exact fs_roundtrip. Qed.
+
+Theorem C17_flowspec_from_api_preserves_wf :
+  forall v6r family x n, v6_range v6r -> api_fs_in_range x -> fs_from_api v6r family x = Some n -> wf_fs n.
+Proof. intros v6r family x n. exact (fs_from_api_wf (fun _ => []) v6r family x n). Qed.
+
+Theorem C17_srpolicy_roundtrip_and_wf :
+  (forall n, wf_srp n -> srp_from_api (srp_to_api n) = Some n)
+  /\ (forall l d c e n, u32_ok d -> u32_ok c -> bytes_ok e -> srp_from_api (ASrP l d c e) = Some n -> wf_srp n).
+Proof. split; [exact srp_roundtrip|exact srp_from_api_wf]. Qed.
+
+Theorem C17_rtc_roundtrip_outside_known :
+  forall n, wf_rtc n -> ~ Known_C17_rtc n -> rtc_from_api (rtc_to_api n) = Some n.
+Proof. exact rtc_roundtrip_outside_known. Qed.
+
+Theorem C17_rtc_roundtrip_refuted :
+  exists n, wf_rtc n /\ Known_C17_rtc n /\ rtc_from_api (rtc_to_api n) <> Some n.
+Proof. exact rtc_roundtrip_refuted. Qed.
+
+Theorem C17_rtc_from_api_preserves_wf :
+  forall a rt n, u32_ok a -> rtc_from_api (ARtc a rt) = Some n -> wf_rtc n.
+Proof. exact rtc_from_api_wf. Qed.
+
+Example flowspec_example :
+  let n := FsN false (Some (RD2 65000 1))
+               [FsPfx 1 167772160 8 0; FsOps 3 [(129, 6)]; FsOps 5 [(3, 80); (197, 8080)]] in
+  wf_fs n /\ fs_from_api toy_r (fs_family n) (fs_to_api toy_p n) = Some n
+  /\ api_fs_in_range (fs_to_api toy_p n)
+  /\ fs_from_api v6_parse 65669 (AFs [FRPrefix 1 33 [49; 48; 46; 48; 46; 48; 46; 48] 0]) = None
+  /\ fs_from_api v6_parse 65669 (AFs [FRComp 5 []]) = None
+  /\ fs_from_api v6_parse 65669 (AFs [FRComp 5 [(1, 6)]]) = Some (FsN false None [FsOps 5 [(129, 6)]]).
+Proof.
+  cbn zeta. split; [|split; [vm_compute; reflexivity|split; [|repeat split; vm_compute; reflexivity]]].
+  - split; [|split; [cbn; lia|vm_compute; discriminate]].
+    repeat constructor; cbn; unfold wf_prefix, wf_op_bits; repeat split; try lia; try reflexivity; try (left; reflexivity).
+  - cbn. split; [unfold u32_ok; lia|]. repeat constructor; cbn; lia.
+Qed.
+
+Example rtc_srp_example :
+  wf_rtc (RtcExact 65001 [1; 2; 192; 0; 2; 1; 0; 100]) /\ ~ Known_C17_rtc (RtcExact 65001 [1; 2; 192; 0; 2; 1; 0; 100])
+  /\ wf_srp (SrP true 1 2 1) /\ Known_C17_rtc (RtcExact 1 [3; 2; 0; 0; 0; 0; 0; 0]).
+Proof.
+  split; [cbn; unfold u32_ok; repeat split; try lia; repeat constructor; lia|].
+  split; [cbn; intros [H|H]; [lia|apply H; reflexivity]|].
+  split; [cbn; unfold u32_ok; repeat split; lia|cbn; left; lia].
+Qed.
+
+(* ------------------------------------------------------------------ *)
+(* Typed PREFIX_SID / TUNNEL_ENCAP messages                              *)
+From RB Require Import Proofs.ApiT.
+
+Theorem C17_typed_from_api_total :
+  (forall x, exists r, from_api_psid x = Ok r) /\ (forall x, exists r, from_api_te x = Ok r).
+Proof. split; [exact psid_from_api_total|exact te_from_api_total]. Qed.
+
+Theorem C17_prefix_sid_accepted_wf :
+  forall x a, api_psid_in_range x -> from_api_psid x = Ok (Some a) ->
+    exists p, psid_from_api x = Some p /\ a = mkAttr PREFIX_SID 192 (DBin (psid_encode p)) /\
+              wf_psid p /\ ps_fits p /\ len_ok (psid_encode p).
+Proof. exact psid_accepted_wf. Qed.
+
+Theorem C17_prefix_sid_roundtrip :
+  forall p, wf_psid p -> psid_from_api (psid_to_api p) = Some p.
+Proof. exact psid_roundtrip. Qed.
+
+Theorem C17_tunnel_encap_accepted_wf :
+  forall x a, api_te_in_range x -> from_api_te x = Ok (Some a) ->
+    exists l, te_from_api x = Some l /\ a = mkAttr TUNNEL_ENCAP 192 (DBin (te_encode l)) /\
+              wf_te l /\ te_fits l /\ len_ok (te_encode l).
+Proof. exact te_accepted_wf. Qed.
+
+Theorem C17_tunnel_encap_roundtrip :
+  forall l, wf_te l -> te_listable l -> te_from_api (te_to_api l) = Some l.
+Proof. exact te_roundtrip. Qed.
+
+Definition ex_sid : list N := [32; 1; 13; 184; 0; 0; 0; 0; 0; 0; 0; 0; 0; 0; 0; 1].
+Definition ex_cp : te_cp :=
+  mkCp (Some (0, 100)) (Some (BsMpls 128 100)) (Some (224, ex_sid, Ebs 17 32 16 16 0)) (Some (0, 3)) (Some 7)
+       [(Some (0, 5), [SegA 0 16001; SegB 64 ex_sid (Some (Ebs 17 32 16 16 0))])] (Some [99; 112]) (Some [112]).
+
+(* the hypotheses of the statements above are satisfiable, and the refusals they rest on do happen *)
+Example typed_example :
+  wf_te [TeSr ex_cp; TeRaw 8 []] /\ te_listable [TeSr ex_cp; TeRaw 8 []]
+  /\ te_lists_typed [TeSr ex_cp; TeRaw 8 []] = true
+  /\ wf_psid [PsSvc false [PsInfo ex_sid 17 [PsSt 40 24 16 0 16 64]]]
+  /\ te_from_api [(65551, [])] = None
+  /\ te_from_api [(15, [ATsPrio 256])] = None
+  /\ te_from_api [(15, [ATsPrio 1; ATsPrio 1])] = None
+  /\ te_from_api [(15, [ATsSegList None [ASegA None 1048576]])] = None
+  /\ te_from_api [(15, [ATsBsid6 false false false [1; 2; 3] None])] = None
+  /\ te_lists_typed [TeRaw 8 [1]] = false
+  /\ psid_from_api [APsSvc false [(1, [APsInfo [1; 2; 3] 17 []])]] = None.
+Proof.
+  assert (Hs : bytes_ok ex_sid) by (repeat constructor; lia).
+  split; [|split; [|repeat split; vm_compute; try reflexivity]].
+  - constructor; [|constructor; [cbn; repeat split; try lia; [discriminate|constructor]|constructor]].
+    unfold wf_te_tlv, wf_cp, ex_cp; cbn. repeat split; try lia; try assumption; try reflexivity.
+    all: repeat constructor; cbn; try lia; try assumption; try reflexivity.
+  - constructor; [|constructor; [reflexivity|constructor]].
+    unfold cp_listable, ex_cp; cbn. repeat split; try reflexivity.
+    repeat constructor; cbn; try reflexivity; try (intros _; reflexivity).
+  - repeat constructor; cbn; try lia; try assumption; try reflexivity.
+Qed.
+
+(* ------------------------------------------------------------------ *)
+(* BGP-MUP NLRI                                                          *)
+From RB Require Import Proofs.ApiMup.
+
+Theorem C17_mup_roundtrip :
+  forall v6p v6r n, v6_contract v6p v6r -> v6_nonempty v6p -> wf_mup n ->
+    mup_from_api v6r (mup_to_api v6p n) = Some n.
+Proof. exact mup_roundtrip. Qed.
+
+Theorem C17_mup_from_api_preserves_wf :
+  forall v6r x n, v6_range v6r -> api_mup_in_range x -> mup_from_api v6r x = Some n ->
+    wf_mup n /\ N.of_nat (length (mup_body n)) < 256.
+Proof. intros v6r x n Hr Hx H. split; [exact (mup_from_api_wf (fun _ => []) v6r x n Hr Hx H)|apply mup_body_fits]. Qed.
+
+Example mup_example :
+  let n := MupT1 (RD2 65000 1) (IP4 167772160) 8 305419896 9 (IP4 3221225985) None in
+  wf_mup n /\ wf_mup (MupT2 (RD2 65000 1) 48 (IP4 3221225985) 16908288)
+  /\ mup_from_api v6_parse (AMupT2 (ARd2 65000 1) 40 [49; 57; 50; 46; 48; 46; 50; 46; 49] 16909056) = None
+  /\ mup_from_api v6_parse (AMupIsd (ARd2 65000 1) [49; 48; 46; 48; 46; 48; 46; 49; 47; 56]) = None.
+Proof.
+  cbn zeta. split; [|split; [|split; vm_compute; reflexivity]].
+  - cbn. unfold wf_prefix. repeat split; cbn; try lia; try reflexivity.
+  - cbn. repeat split; try lia; try (intros _; vm_compute; reflexivity).
 Qed.
